@@ -5,6 +5,7 @@ package cmd
 
 import (
 	"fmt"
+	"github.com/microsoft/yardl/tooling/internal/verifhook"
 	"os"
 
 	"github.com/rs/zerolog/log"
@@ -67,6 +68,7 @@ func validatePackage(packageInfo *packaging.PackageInfo) (*dsl.Environment, []st
 		return nil, nil, err
 	}
 
+	verifhook.Emit("ValidateNs", "ns", packageInfo.Namespace)
 	env, err := dsl.Validate(namespaces)
 	if err != nil {
 		return nil, nil, err
@@ -87,6 +89,7 @@ func validatePackage(packageInfo *packaging.PackageInfo) (*dsl.Environment, []st
 			return nil, nil, err
 		}
 
+		verifhook.Emit("ValidateVersion", "label", version.Label)
 		oldEnv, err := dsl.Validate(namespaces)
 		if err != nil {
 			return nil, nil, err
@@ -97,6 +100,7 @@ func validatePackage(packageInfo *packaging.PackageInfo) (*dsl.Environment, []st
 
 	var warnings []string
 	if len(versionEnvs) > 0 {
+		verifhook.Emit("Evolution")
 		env, warnings, err = dsl.ValidateEvolution(env, versionEnvs, labels)
 		if err != nil {
 			return nil, warnings, err
@@ -125,6 +129,7 @@ func parsePackageNamespaces(p *packaging.PackageInfo, alreadyParsed map[string]*
 		return existing, nil
 	}
 
+	verifhook.Emit("ParsePkg", "ns", p.Namespace, "dir", p.PackageDir())
 	namespace, err := dsl.ParsePackageContents(p)
 	if err != nil {
 		return nil, err
